@@ -11,6 +11,8 @@ def build(tier, seed):
         PUnit("combination-rules", [T.LB, T.GEO], T.REG),
         LUnit("combination-symmetry", T.lemma_comb_symmetric),
         PUnit("c6c12-to-sigma-epsilon", [T.CONV], T.REG),
+        PUnit("define-substitution", [T.REPLACE_DEFINED], T.REG),
+        LUnit("define-offsets-monotone", T.lemma_off_monotone),
     ] + [u for u in b_top.UNITS if u.name == "c09-preprocess"]
     return {"units": units, "level": "other",
             "notes": "contract-based deductive verification (pyvc: VCs generated from the real AST, z3/cvc5)"}
